@@ -577,7 +577,14 @@ func (f *Field) applyOptions(opt FieldOptions) error {
 		f.options.Min = opt.Min
 		f.options.Max = opt.Max
 		f.options.Base = opt.Base
-		f.options.BitDepth = opt.BitDepth
+		// A stored bit depth of 0 marks v1 metadata, which loadMeta upgrades
+		// by resetting the base to min; a field of the current format
+		// therefore never has a bit depth below 1.
+		bitDepth := opt.BitDepth
+		if bitDepth == 0 {
+			bitDepth = 1
+		}
+		f.options.BitDepth = bitDepth
 		f.options.TimeQuantum = ""
 		f.options.Keys = opt.Keys
 
